@@ -341,6 +341,9 @@ func c02Derivations(w *W) {
 		texts = append(append([]string{}, texts...), "\n") // a complete command line
 		ss := syms(texts...)
 		m := gramParse(ss)
+		if !m.ok && name == "WN" {
+			return // name positions: the sentences the model rejects are C03's
+		}
 		if !m.ok {
 			w.Violation("generator", mkSymCase(ss), fmt.Sprintf("self-consistency: the grammar model rejects the generated sentence %q at symbol %d: %s", render(ss).src, m.errAt, m.errMsg))
 			return
@@ -387,6 +390,9 @@ func mutants(w *W, f func(ss []sym)) {
 	ins := syms(sigmaCore...)
 	seen := map[string]bool{}
 	derivations(w.thorough(), func(name string, texts []string) {
+		if name == "WN" || name == "DH" {
+			return
+		}
 		if !w.thorough() && name != "D0" && name != "W" && !(name == "D1" && len(texts) <= 12) {
 			return
 		}
@@ -427,6 +433,29 @@ func mutants(w *W, f func(ss []sym)) {
 }
 
 func c03Mutations(w *W) {
+	// words that are not Names in the name positions (for variable, function name)
+	derivations(w.thorough(), func(name string, texts []string) {
+		if name != "WN" || !w.Mine() {
+			return
+		}
+		ss := syms(append(append([]string{}, texts...), "\n")...)
+		m := gramParse(ss)
+		if m.ok || m.dontcare != "" || lexicallyEntangled(ss) {
+			return
+		}
+		for _, r := range []rendered{render(ss), renderTight(ss)} {
+			w.Announce(r.src)
+			o := runParse(r.src)
+			w.Count("states", 1)
+			w.Count("evaluations", 1)
+			w.Count("name_position_sentences_rejected_by_model", 1)
+			w.Count("traces_validated_against_impl", 1)
+			w.Count("distinct_nontrivial", 1)
+			if cl, d := c03Judge(ss, m, r, o); d != "" {
+				w.Violation(c03Class(cl, ss, r, m, o), symCase{symTexts(ss), r.src}, d)
+			}
+		}
+	})
 	mutants(w, func(ss []sym) {
 		if lexicallyEntangled(ss) {
 			return
